@@ -926,6 +926,23 @@ impl H {
         self.emit(vec![("op", J::s("clone")), ("w", ji(src)), ("dst", ji(dst)), ("fault", J::B(fault.is_some())), ("out", out)]);
     }
 
+    /// `dst.clone_from(&src)` into an EXISTING world (Clone::clone_from may be overridden to recycle
+    /// allocations): afterwards dst must answer like src, its previous values are dropped.
+    pub fn op_clone_from(&mut self, src: usize, dst: usize) {
+        let mut d = self.worlds[dst].take().unwrap();
+        let r = { let s = self.worlds[src].as_ref().unwrap(); guard(|| { d.clone_from(s); d }) };
+        let out = match r {
+            Ok(d) => {
+                self.worlds[dst] = Some(d);
+                self.pool[dst] = self.pool[src].clone();
+                self.dpool[dst] = self.dpool[src].clone();
+                jt("ok")
+            }
+            Err(()) => { self.pool[dst].clear(); self.dpool[dst].clear(); jp() }
+        };
+        self.emit(vec![("op", J::s("clone")), ("w", ji(src)), ("dst", ji(dst)), ("into", J::B(true)), ("fault", J::B(false)), ("out", out)]);
+    }
+
     pub fn op_drop(&mut self, wi: usize, fault: Option<u32>) {
         reg::with(|r| r.drop_fault = fault);
         let w = self.worlds[wi].take().unwrap();
